@@ -40,6 +40,12 @@ def mutants_for(prop):
         m = parse(p)
         if m["property"] == prop:
             out.append(m)
+    # the independently seeded mutants of this property (sub-agents, /verif/seeded/<ID>-<i>/patch.diff): any violation counts
+    for d in sorted(glob.glob(os.path.join(VERIF, "seeded", prop + "-*")), key=lambda x: int(x.rsplit("-", 1)[1])):
+        pth = os.path.join(d, "patch.diff")
+        if os.path.exists(pth):
+            out.append({"property": prop, "expect": [], "note": "independently seeded mutant (see %s/meta.json)" % os.path.basename(d),
+                        "path": pth, "name": "seed:" + os.path.basename(d)})
     return out
 
 
